@@ -78,7 +78,7 @@ PROPS["C16"] = dict(
 
 PROPS["C13"] = dict(
     modules=["Hub.Props.C13"],
-    gens=["c13"],
+    gens=["c13", "c05"],
     rule="(a) random sequences of namespace assertions, URI compactions (hash/slash namespaces, empty local part, colons/slashes/hashes/non-ASCII in "
          "the local part), CURIE expansions and store restarts against the real NamespaceManager, every answer and the final prefix table compared; "
          "(b) identifiers introduced as entity ids in batches with restarts in between, rank order of their internal ids compared (ids never change, "
